@@ -458,6 +458,9 @@ func hostileChild(e *Env, ca childArgs) {
 			r.Evals(1)
 		}
 	}
+	if ca.shard == 0 && ca.one < 0 {
+		hostilePrimitives(e)
+	}
 	// ---- registration scenario (C09 only): an unknown discriminator, then a run-time re-registration of an
 	// existing key through the public Registry…Factory function, then a perfectly valid message.  A decoder
 	// that leaked a lock on the error path blocks here forever.
@@ -559,7 +562,7 @@ func hostile(e *Env) {
 		return
 	}
 	r := e.R
-	r.Rule("every decoder (170 types) × hostile inputs, case i a pure function of (seed, type, i): (00) inputs shorter than the shortest possible message of the type, starting with the empty input - a nil result there is neither a message nor an error; (a) uniformly random bytes of 0..4096 bytes; (b) strict prefixes of valid images; (c) valid images with 1..8 bit flips / byte substitutions; (d) site-directed: for EVERY text-length / list-count token and every frame body-length word of valid images (one base image per registered discriminator key) the token is set to each of {max, max-1, 2^31, 2^31-1, 2^16, 0x0100, ...} in the module's byte order and in the opposite one, (for counts also every value whose product with a plausible element size wraps around the prefix width, and powers of two) followed by nothing, 1 byte, 16 bytes, or the valid remainder, half of them handed over in a receive buffer with 4 MiB of spare capacity; (e) unknown and near-miss discriminators; plus legitimate large images (1000- and 65535-element lists actually present) that must stay inside the bound. distinct_nontrivial = distinct non-empty inputs")
+	r.Rule("every decoder (170 types) × hostile inputs, case i a pure function of (seed, type, i): (00) inputs shorter than the shortest possible message of the type, starting with the empty input - a nil result there is neither a message nor an error; (a) uniformly random bytes of 0..4096 bytes; (b) strict prefixes of valid images; (c) valid images with 1..8 bit flips / byte substitutions; (d) site-directed: for EVERY text-length / list-count token and every frame body-length word of valid images (one base image per registered discriminator key) the token is set to each of {max, max-1, 2^31, 2^31-1, 2^16, 0x0100, ...} in the module's byte order and in the opposite one, (for counts also every value whose product with a plausible element size wraps around the prefix width, and powers of two) followed by nothing, 1 byte, 16 bytes, or the valid remainder, half of them handed over in a receive buffer with 4 MiB of spare capacity; (e) unknown and near-miss discriminators; plus every exported prefixed reader primitive instantiated for u8/u16/u32/u64 prefixes with maximal, top-bit and small prefixes followed by 0..40 bytes; plus legitimate large images (1000- and 65535-element lists actually present) that must stay inside the bound. distinct_nontrivial = distinct non-empty inputs")
 	if r.Prop == "C09" {
 		r.Explain(fmt.Sprintf("Oracle: Decode returns normally (nil or error): no recovered panic; the child process (RLIMIT_AS 2 GiB, single goroutine) does not die (fatal out-of-memory / stack exhaustion bypass recover and are seen as process death with the pre-logged in-flight input as witness); step proxy: heap objects allocated during the call <= %d + %d*len(input) (every loop iteration of every reader allocates at least once, so this bounds the number of reader steps independently of machine load); a wall-clock watchdog only triggers an isolated re-run and is never a verdict by itself.", stepConst, stepPerByte))
 	} else {
